@@ -36,6 +36,7 @@ class MacroDef:
         self.globals_used: List[str] = []       # full names of global labels referenced (declared after '<')
         self.extern: Optional[str] = None       # base name of a '>' extern label this macro declares (such a macro is expanded once)
         self.label_param = False                # parameter 0 is DECLARED as a label in the body (argument must be a bare name)
+        self.pad_param = False                  # parameter 0 is the alignment of a `pad` in the body (argument must be a number)
         self.body: List[Dict[str, Any]] = []
         self.def_line = 0
         self.file = ''
@@ -122,6 +123,14 @@ class Gen:
                 self.globals.append((fresh, []))
                 self.special_calls.append((m, fresh))
             self.feature('label-parameter-macros')
+        if rng.random() < 0.4:
+            # a macro that pads by its first parameter, expanded several times with different alignments
+            m = MacroDef(len(self.macros), 'pd', pick_ns(rng)[:1], rng.sample(POOL, rng.choice([1, 2])), [])
+            m.pad_param = True
+            self.macros.append(m)
+            for n in rng.sample([1, 2, 3, 4, 5, 8], rng.choice([2, 3])):
+                self.special_calls.append((m, n))
+            self.feature('pad-by-parameter-macros')
         # global labels (some spelled like parameters / iterators), constants
         self.declared_by_macros = list(self.globals)
         for _ in range(rng.choice([1, 2, 3, 4])):
@@ -153,12 +162,16 @@ class Gen:
         leaves += [('const', k) for k in self.consts]
         leaves += self.global_leaves_for(m)
         declared = set()
-        callees = [c for c in self.macros if c.index > m.index and c.extern is None and not c.label_param]
+        callees = [c for c in self.macros if c.index > m.index and c.extern is None and not c.label_param and not c.pad_param]
         if m.extern is not None:
             m.body.append({'kind': 'externlabel', 'name': m.extern})
             m.body.append(self.op_stmt(leaves))
         if m.label_param:
             m.body.append({'kind': 'paramlabel'})
+            m.body.append(self.op_stmt(leaves))
+        if m.pad_param:
+            m.body.append(self.op_stmt(leaves))
+            m.body.append({'kind': 'pad', 'n': None, 'exprs': [('name', ('param', 0))]})
             m.body.append(self.op_stmt(leaves))
         n_stmts = rng.choice([1, 2, 3, 4, 5])
         for _ in range(n_stmts):
@@ -276,12 +289,14 @@ class Gen:
         self.top = items
 
     def ordinary_macros(self) -> List[MacroDef]:
-        return [m for m in self.macros if m.extern is None and not m.label_param]
+        return [m for m in self.macros if m.extern is None and not m.label_param and not m.pad_param]
 
     def special_call(self, special: Tuple[MacroDef, Optional[str]], leaves: List[Any]) -> Dict[str, Any]:
         callee, fresh = special
         args = [self.expr(leaves) for _ in callee.params]
-        if fresh is not None:
+        if callee.pad_param:
+            args[0] = ('lit', fresh)                # a number: the callee pads by it
+        elif fresh is not None:
             args[0] = ('name', ('global', fresh))   # a bare name: the callee declares it as a label
         self.feature('calls')
         return {'kind': 'call', 'callee': callee.index, 'args': args, 'exprs': args}
@@ -340,7 +355,8 @@ class Gen:
             assert m is not None
             return f'{indent}{m.params[0]}:'
         if st['kind'] == 'pad':
-            return f'{indent}pad {st["n"]}'
+            assert st['n'] is not None or m is not None
+            return f'{indent}pad {st["n"]}' if st['n'] is not None else f'{indent}pad {m.params[0]}'
         if st['kind'] == 'wflip':
             mask = ((1 << self.w) - 1) & ~(self.w - 1)
             text = f'{indent}wflip (({self.render_expr(st["addr"], m, cur_ns)}) & {mask}), {st["value"]}'
@@ -494,7 +510,7 @@ class Gen:
                 out.append(f'{unique}:')
                 self.out.expected_labels[unique[2:]] = unique
             elif kind == 'pad':
-                out.append(f'pad {st["n"]}')
+                out.append(f'pad {st["n"]}' if st['n'] is not None else f'pad {env[("param", 0)]}')
             elif kind == 'wflip':
                 mask = ((1 << self.w) - 1) & ~(self.w - 1)
                 text = f'wflip (({self.inline_expr(st["addr"], env)}) & {mask}), {st["value"]}'
